@@ -3,8 +3,10 @@ package main
 import (
 	"bytes"
 	"flag"
+	"math/rand"
 
 	"github.com/libsv/go-bt/v2"
+	"github.com/libsv/go-bt/v2/bscript"
 	"github.com/libsv/go-bt/v2/sighash"
 )
 
@@ -99,6 +101,24 @@ func sighashCmd(args []string) error {
 			return err
 		}
 		for _, c := range cs {
+			if c["chain"] != nil {
+				// one object, evaluated repeatedly with in-place edits in between
+				var tx *bt.Tx
+				for k, x := range c["chain"].([]interface{}) {
+					st := x.(map[string]interface{})
+					m := st["tx"].(map[string]interface{})
+					if tx == nil {
+						tx = txFromSpec(m)
+						fixNil(tx, m)
+					} else {
+						assignInPlace(tx, m)
+					}
+					ev := sigEvent("chain", tx, uint32(num(st["idx"])), byte(num(st["ht"])))
+					ev["obj"], ev["k"] = 0, k
+					tr.emit(ev)
+				}
+				continue
+			}
 			m := c["tx"].(map[string]interface{})
 			tx := txFromSpec(m)
 			for k, x := range m["ins"].([]interface{}) {
@@ -130,6 +150,11 @@ func sighashCmd(args []string) error {
 				}
 			}
 			for k := 0; k < *per; k++ {
+				// the same object is hashed again after in-place edits of exported fields
+				// (counts unchanged): a digest must depend on the transaction as it is now
+				if k > 0 && rng.Intn(3) == 0 {
+					editInPlace(rng, g.tx)
+				}
 				idx := uint32(rng.Intn(len(g.tx.Inputs) + 1))
 				if rng.Intn(30) == 0 {
 					idx = rng.Uint32()
@@ -144,9 +169,78 @@ func sighashCmd(args []string) error {
 						break
 					}
 				}
-				tr.emit(sigEvent("gen", g.tx, idx, ht))
+				ev := sigEvent("gen", g.tx, idx, ht)
+				ev["obj"], ev["k"] = i, k
+				tr.emit(ev)
 			}
 		}
 	}
 	return tr.close()
+}
+
+// editInPlace changes one exported field of tx without changing the number of inputs/outputs.
+func editInPlace(rng *rand.Rand, tx *bt.Tx) {
+	switch rng.Intn(8) {
+	case 0:
+		if n := len(tx.Outputs); n > 0 {
+			tx.Outputs[rng.Intn(n)].Satoshis += 1 + uint64(rng.Intn(1000))
+		}
+	case 1:
+		if n := len(tx.Outputs); n > 0 {
+			o := tx.Outputs[rng.Intn(n)]
+			ls := append(bscript.Script{}, *o.LockingScript...)
+			ls = append(ls, 0x51)
+			o.LockingScript = &ls
+		}
+	case 2:
+		in := tx.Inputs[rng.Intn(len(tx.Inputs))]
+		in.SequenceNumber ^= 1 << uint(rng.Intn(32))
+	case 3:
+		in := tx.Inputs[rng.Intn(len(tx.Inputs))]
+		in.PreviousTxOutIndex += 1
+	case 4:
+		in := tx.Inputs[rng.Intn(len(tx.Inputs))]
+		in.PreviousTxSatoshis += 1 + uint64(rng.Intn(1000))
+	case 5:
+		tx.LockTime += 1
+	case 6:
+		tx.Version += 1
+	case 7:
+		in := tx.Inputs[rng.Intn(len(tx.Inputs))]
+		if in.PreviousTxScript != nil {
+			ps := append(bscript.Script{}, *in.PreviousTxScript...)
+			ps = append(ps, 0x61)
+			in.PreviousTxScript = &ps
+		}
+	}
+}
+
+// fixNil restores the nil previous scripts of a projection.
+func fixNil(tx *bt.Tx, m map[string]interface{}) {
+	for k, x := range m["ins"].([]interface{}) {
+		im := x.(map[string]interface{})
+		if hp, ok := im["hasps"].(bool); ok && !hp {
+			tx.Inputs[k].PreviousTxScript = nil
+		}
+	}
+}
+
+// assignInPlace writes the exported fields of projection m into the existing object
+// (same number of inputs and outputs), the way a caller edits a transaction.
+func assignInPlace(tx *bt.Tx, m map[string]interface{}) {
+	t2 := txFromSpec(m)
+	fixNil(t2, m)
+	tx.Version, tx.LockTime = t2.Version, t2.LockTime
+	for k, in := range t2.Inputs {
+		if k < len(tx.Inputs) {
+			d := tx.Inputs[k]
+			d.PreviousTxOutIndex, d.SequenceNumber, d.PreviousTxSatoshis = in.PreviousTxOutIndex, in.SequenceNumber, in.PreviousTxSatoshis
+			d.PreviousTxScript, d.UnlockingScript = in.PreviousTxScript, in.UnlockingScript
+		}
+	}
+	for k, o := range t2.Outputs {
+		if k < len(tx.Outputs) {
+			tx.Outputs[k].Satoshis, tx.Outputs[k].LockingScript = o.Satoshis, o.LockingScript
+		}
+	}
 }
